@@ -167,7 +167,9 @@ def reify_checks(m, result):
 
 
 def template_task(task):
-    (name, progast, nparams, mode, limit, window, extra), libmir, tmir, crate = task
+    (name, progast, nparams, mode, limit, window, extra), libmir, tmir, crate = task[:4]
+    initial = task[4] if len(task) > 4 else None
+    frontier_target = task[5] if len(task) > 5 else None
     prog = interp.Program()
     prog.load(libmir, REPO)
     prog.load(tmir, crate)
@@ -197,6 +199,14 @@ def template_task(task):
         if len(ea) >= limit and mode not in ('subset', 'covers'):
             raise NotEncodable('answer limit reached')
         m.reify_report = reify_checks(m, res) if not extra.get('user') else None
+        m.second_run = None
+        if extra.get('hash_orders'):
+            # C09: the same query again, with the iteration order of the hash containers chosen by the solver
+            m.hash_mode = 'fork'
+            m.hash_forks_left = extra['hash_orders']
+            res2 = m.call(name, list(params) + [limit])
+            m.hash_mode = 'insertion'
+            m.second_run = PG.engine_answers(m, res2)
         return params, ea, fa
 
     def on_path(r):
@@ -233,6 +243,13 @@ def template_task(task):
                           [H.model_int(model, p) for p in params], 'ccount', sorted(e for e, _, _ in rr_['counts']))
         out['answers_seen'] += len(ea)
         out['covers'].add('answers' if ea else 'no-answers')
+        second = getattr(r.machine, 'second_run', None)
+        if second is not None:
+            d2 = PG.compare(ctx, second, [(a[0], a[1]) for a in ea], 'sequence')
+            if d2 is not None:
+                rr, model = ctx.query()
+                add_issue('order-dependent', 'two runs of the same query that differ only in the iteration order of the hash-based stores give different answer sequences: %s vs %s (%s)' % (
+                    [PG.show_answer(a) for a in ea][:6], [PG.show_answer(a) for a in second][:6], d2), [H.model_int(model, p) for p in params], 'deterministic', None)
         if rr_ is not None and rr_['named']:
             return      # the answers are not even closed; the semantic comparison below would be about something else
         diff = PG.compare(ctx, ea, fa, mode)
@@ -273,7 +290,8 @@ def template_task(task):
             return
         out['issues'].append((key, what, pv, kind, data))
 
-    stats = interp.explore(mk, scenario, on_path=on_path, time_budget=900)
+    stats = interp.explore(mk, scenario, on_path=on_path, time_budget=900, initial=initial, frontier_target=frontier_target)
+    out['frontier'] = stats.get('frontier', [])
     if mode == 'covers' and any(i[0] == 'not-productive' for i in out['issues']):
         stats['notenc'] = max(0, stats['notenc'] - sum(v for k_, v in stats['notenc_reasons'].items() if 'step bound' in k_))
     out['stats'] = {k: stats[k] for k in ('paths', 'ok', 'panic', 'notenc', 'abort', 'solver_calls', 'steps', 'truncated', 'wall_s')}
@@ -337,6 +355,12 @@ def case_source(prop, name, progast, nparams, pv, kind, data, what, path, extra=
             'true' if data[1] else 'false', data[0].replace('"', '\\"'), '' if data[1] else 'not ')
     elif kind == 'nopanic':
         check = '    let _n = query.run().take(LIMIT).count();\n'
+    elif kind == 'deterministic':
+        check = ('    let re = |s: String| { let mut o = String::new(); let mut it = s.chars().peekable();\n'
+                 '        while let Some(c) = it.next() { o.push(c); if c == \'_\' { if it.peek() == Some(&\'.\') { it.next(); while it.peek().map_or(false, |d| d.is_ascii_digit()) { it.next(); } } } } o };\n'
+                 '    let first: Vec<String> = query.run().take(LIMIT).map(|r| re(format!("{}", r.q))).collect();\n'
+                 '    for _ in 0..400 {\n        let again: Vec<String> = query.run().take(LIMIT).map(|r| re(format!("{}", r.q))).collect();\n'
+                 '        assert_eq!(first, again, "the same query produced two different answer sequences in one process");\n    }\n')
     elif kind == 'timeout':
         check = '    let n = query.run().take(LIMIT).count();\n    assert_eq!(n, LIMIT);\n'
     elif kind == 'reified':
@@ -421,7 +445,50 @@ def run_templates(rep, prop, templates, tag, window=3):
     templates = [tuple(t) + ({},) if len(t) == 5 else tuple(t) for t in templates]
     libmir, tmir, crate = build([(n, p, k, ex) for n, p, k, mo, li, ex in templates], tag)
     tasks = [((n, p, k, mo, li, window, ex), libmir, tmir, crate) for n, p, k, mo, li, ex in templates]
-    results = parallel.pmap(template_task, tasks)
+    # stage 1: every template explores shortest-prefix-first until 24 sub-trees are pending; stage 2: all pending
+    # sub-trees of all templates are explored in parallel and merged back per template
+    stage1 = parallel.pmap(template_task, [t + (None, 24) for t in tasks])
+    extra_tasks, owners = [], []
+    for i, (st, res) in enumerate(stage1):
+        if st == 'ok' and res.get('frontier'):
+            fr = res['frontier']
+            chunk = max(1, len(fr) // 12)
+            for j in range(0, len(fr), chunk):
+                extra_tasks.append(tasks[i] + (fr[j:j + chunk],))
+                owners.append(i)
+    stage2 = parallel.pmap(template_task, extra_tasks) if extra_tasks else []
+    results = []
+    for i, (st, res) in enumerate(stage1):
+        if st != 'ok':
+            results.append((st, res))
+            continue
+        parts = [res]
+        bad = None
+        for o, (st2, res2) in zip(owners, stage2):
+            if o == i:
+                if st2 != 'ok':
+                    bad = (st2, res2)
+                else:
+                    parts.append(res2)
+        if bad:
+            results.append(bad)
+            continue
+        merged = parts[0]
+        for pt in parts[1:]:
+            for iss in pt['issues']:
+                if not any(iss[0] == j[0] for j in merged['issues']):
+                    merged['issues'].append(iss)
+            merged['covers'] |= pt['covers']
+            merged['called'] |= pt['called']
+            merged['answers_seen'] += pt['answers_seen']
+            merged['samples'] += pt['samples'][:1]
+            for k_ in ('paths', 'ok', 'panic', 'notenc', 'abort', 'solver_calls', 'steps'):
+                merged['stats'][k_] += pt['stats'][k_]
+            merged['stats']['truncated'] = merged['stats']['truncated'] or pt['stats']['truncated']
+            merged['stats']['wall_s'] = max(merged['stats']['wall_s'], pt['stats']['wall_s'])
+            for k_, v_ in pt['notenc_reasons'].items():
+                merged['notenc_reasons'][k_] = merged['notenc_reasons'].get(k_, 0) + v_
+        results.append(('ok', merged))
     called = set()
     tot_paths = tot_steps = 0
     for (n, p, k, mo, li, ex), (st, res) in zip(templates, results):
